@@ -428,4 +428,48 @@ theorem crosses_vertical_down (cx cy x y0 y1 : Rat) (h : y0 < y1) :
   constructor <;> intro h <;> grind
 
 
+/-! ### the call: argument binding, sessions -/
+
+/-- every split of an argument list into a positional head (in signature order) and a keyword tail
+    binds the same way as the all-keyword call -/
+theorem bindCall_split {α : Type} (order : List String) (hnd : order.Nodup) (vals : List α)
+    (hlen : vals.length ≤ order.length) (k : Nat) (hk : k ≤ vals.length) :
+    bindCall order (vals.take k) ((order.zip vals).drop k) = some (order.zip vals) := by
+  have hpl : (vals.take k).length = k := by simp; omega
+  unfold bindCall
+  rw [hpl]
+  have h1 : ¬ order.length < k := by omega
+  simp only [h1, if_false]
+  have hall : ((order.zip vals).drop k).all
+      (fun p => order.contains p.1 && !((order.take k).contains p.1)) = true := by
+    rw [List.all_eq_true]
+    intro p hp
+    rw [List.zip, List.drop_zipWith] at hp
+    have hmem := (List.of_mem_zip (by simpa [List.zip] using hp)).1
+    have hin : p.1 ∈ order := List.mem_of_mem_drop hmem
+    have hnot : p.1 ∉ order.take k := by
+      intro hc
+      have hdis := List.take_append_drop k order ▸ hnd
+      rw [List.nodup_append] at hdis
+      exact hdis.2.2 _ hc _ hmem rfl
+    simp [hin, hnot]
+  rw [if_pos hall]; simp only [List.zip, ← List.take_zipWith, List.take_append_drop]
+
+theorem optionalOrder_nodup : optionalOrder.Nodup := by decide
+
+theorem runSession_append (B : Burner) (evs evs' : List Event) :
+    runSession B (evs ++ evs') = evs'.foldl (step B) (runSession B evs) := by
+  simp [runSession, List.foldl_append]
+
+theorem foldl_step_calls (B : Burner) (calls : List Request) (held : List (Except AErr Raster)) :
+    (calls.map Event.call).foldl (step B) held = held ++ calls.map (answer B) := by
+  induction calls generalizing held with
+  | nil => simp
+  | cons r rs ih => simp [step, ih]
+
+theorem lattice_ne_nil (a s : Rat) (n : Nat) (h : 0 < n) : lattice a s n ≠ [] := by
+  intro h0
+  have := congrArg List.length h0
+  simp at this; omega
+
 end SE.Raster
